@@ -285,6 +285,48 @@ pub fn to_quizx(c: &Circ) -> Circuit {
     q
 }
 
+/// The same circuit assembled in one of four ways, chosen by a hash of the circuit itself (so
+/// that a case always gets the same one): plain pushes; the tail pushed first and the head
+/// added with push_front (a wrapped ring buffer); push_front only (what extraction does);
+/// pushed in reverse and reversed in place. The gate list is a VecDeque: its memory layout
+/// depends on this history, its meaning must not.
+pub fn to_quizx_layout(c: &Circ) -> Circuit {
+    let n = c.gates.len();
+    if n == 0 {
+        return to_quizx(c);
+    }
+    let h = circ_hash(c);
+    match h % 4 {
+        0 => to_quizx(c),
+        1 => {
+            let k = 1 + (h / 4) as usize % n;
+            let mut q = Circuit::new(c.n);
+            for g in &c.gates[k..] {
+                q.push(to_gate(g));
+            }
+            for g in c.gates[..k].iter().rev() {
+                q.push_front(to_gate(g));
+            }
+            q
+        }
+        2 => {
+            let mut q = Circuit::new(c.n);
+            for g in c.gates.iter().rev() {
+                q.push_front(to_gate(g));
+            }
+            q
+        }
+        _ => {
+            let mut q = Circuit::new(c.n);
+            for g in c.gates.iter().rev() {
+                q.push(to_gate(g));
+            }
+            q.reverse();
+            q
+        }
+    }
+}
+
 /// Convert a quizx circuit back into the harness type (for circuits produced by quizx,
 /// e.g. extraction results). Returns Err on gate kinds the simulator does not know.
 pub fn from_quizx(c: &Circuit) -> Result<Circ, String> {
